@@ -467,7 +467,7 @@ func dumpLeafNode(node *node) (string, bool) {
 	var res string
 	switch v := node.value.(type) {
 	case string:
-		res = strconv.Quote(v)
+		res = `"` + v + `"`
 	case []string:
 		var sb strings.Builder
 		sb.WriteRune('(')
@@ -475,7 +475,7 @@ func dumpLeafNode(node *node) (string, bool) {
 			if idx != 0 {
 				sb.WriteRune(' ')
 			}
-			sb.WriteString(strconv.Quote(s))
+			sb.WriteString(`"` + s + `"`)
 		}
 		sb.WriteRune(')')
 		res = sb.String()
